@@ -175,14 +175,25 @@ class Values:
         self.custom = {}
         struct_defs = [d for k, d in defs if k == "struct"]
         enum_defs = [d for k, d in defs if k == "enum"]
-        si = ei = 0
+
+        def norm(n):
+            return re.sub(r"[^a-z0-9]", "", n.lower())
+
+        def pick(pool, t, width):
+            # by name up to case and separators if exactly one definition of the right width answers to it
+            # (helper items the generator may add are then ignored), else the next one in order
+            named = [d for d in pool if norm(d["name"]) == norm(t["name"])
+                     and len(d.get("fields", d.get("variants"))) == width]
+            d = named[0] if len(named) == 1 else (pool[0] if pool else None)
+            if d is None:
+                raise SystemExit(f"no generated definition for type {t['name']}")
+            pool.remove(d)
+            return d
         for t in types:
             if t["isenum"]:
-                self.custom[t["name"]] = ("enum", t, enum_defs[ei])
-                ei += 1
+                self.custom[t["name"]] = ("enum", t, pick(enum_defs, t, len(t["variants"])))
             else:
-                self.custom[t["name"]] = ("struct", t, struct_defs[si])
-                si += 1
+                self.custom[t["name"]] = ("struct", t, pick(struct_defs, t, len(t["ins"])))
 
     def tick(self):
         self.n += 1
